@@ -25,7 +25,7 @@ def _label(o):
 def usable(ctx: Ctx, o, rid):
     """Outcome produced parsable text?  Failures are reported once under C07 (they are the
     'compiles and evaluates' property); other rules skip such outcomes silently unless rid given."""
-    return o.status == "ok" and not o.syntax_error
+    return o.status == "ok" and not o.syntax_error and o.tree is not None
 
 
 def irs(ctx: Ctx):
